@@ -6,6 +6,7 @@
   every real DAG), scheduling policies `allow` (batch size, worker count, pool order) and runs.
 -/
 import CubedModel.Proofs.Sched
+import CubedModel.Model.GeneratedC07
 
 namespace Cubed.C07
 
@@ -93,6 +94,23 @@ theorem C07_checks_sound (d : Dag) (gens : List (List Nat)) (c : Nat) (nodes : L
     (checkCreateFirst d c nodes = true → (∀ n, d.pipeline n = true → n ∈ nodes) → CreateFirst d c) :=
   ⟨checkGens_sound, checkCreateFirst_sound⟩
 
+/-- (i) **Tie to the source** (facts regenerated from the tree under test by `harness/extract_c07.py` on every
+run): the traversals iterate networkx's topological order / generations filtered by `skip_node`; the
+executors iterate those traversals; operation-start is sent before and operation-end after the stream of
+an op (generation) is drained; `_create_lazy_zarr_arrays` adds `create-arrays → arrays → n` for every
+pipeline node. -/
+theorem C07_code_shape :
+    GeneratedC07.visitNodesOrder = "topological_sort" ∧
+    GeneratedC07.visitGensOrder = "topological_generations" ∧
+    GeneratedC07.skipNodeShape = "pipeline-none-or-computed" ∧
+    GeneratedC07.createEdges = "create>arrays>all-pipeline-nodes" ∧
+    GeneratedC07.seqModeIterates = "visit_nodes(dag)" ∧
+    GeneratedC07.genModeIterates = "visit_node_generations(dag)" ∧
+    GeneratedC07.singleThreadedIterates = "visit_nodes(dag)" ∧
+    GeneratedC07.seqModeBracket = "start,drain,end" ∧
+    GeneratedC07.genModeBracket = "start,drain,end" ∧
+    GeneratedC07.singleThreadedBracket = "start,drain,end" := by decide
+
 /-! ## Non-vacuity: a diamond with a create-arrays node
 
     0 create-arrays → 1 "arrays" → {2,4,6,8};  9 (virtual input) → 2 → 3 → {4,6};  4 → 5 → 8;  6 → 7 → 8 → 10 -/
@@ -139,6 +157,21 @@ example : acceptsObs exDag (genSchedule exDag exGens) exObs = true := by decide
 example : ∃ ls s, Run exDag anyPolicy (init (genSchedule exDag exGens)) ls s ∧ s.complete :=
   let ⟨ls, s, hr, hc, _⟩ := C07_trace_inclusion exDag _ exObs (by decide)
   ⟨ls, s, hr, hc⟩
+
+/-- … and that run contains a step in which a task reads array 3 (hypotheses of (c), (d)): -/
+example : ∃ l1 s1 s1' o t l2 s, Run exDag anyPolicy (init (genSchedule exDag exGens)) l1 s1 ∧
+    Step exDag anyPolicy s1 (.read o t 3) s1' ∧ Run exDag anyPolicy s1' l2 s :=
+  let ⟨ls, s, hr, _, ho⟩ := C07_trace_inclusion exDag _ exObs (by decide)
+  have hmem : Obs.read 3 ∈ obsBody ls := by
+    have : Obs.read 3 ∈ observations ls := by rw [ho]; decide
+    simp only [observations, List.mem_cons, List.mem_append] at this
+    rcases this with (h | h) | h | h
+    · cases h
+    · exact h
+    · cases h
+    · cases h
+  let ⟨l1, s1, s1', o, t, l2, h1, hs, h2⟩ := read_step_of_obs hr hmem
+  ⟨l1, s1, s1', o, t, l2, s, h1, hs, h2⟩
 
 /-- … while a read of array 3 before its producer (op 2) is closed is rejected, and so is a consumer
 started together with its producer. -/
